@@ -45,7 +45,7 @@ CTransactionRef build_probe_tx(ChainSim& sim, const Probe& p, CAmount fee_hint, 
 } // namespace
 
 VERIF_TARGET(c05_timelocks, nullptr, 64, 900,
-             "a regtest node (104-block base; CSV/BIP113 active from height 1, 108, 110 or 113) extended by 6-18 blocks with random timestamps in (MTP, MTP+3000] and "
+             "a regtest node (104-block base; CSV/BIP113 active from height 1, 118, 124 or 130) extended by 6-18 blocks with random timestamps in (MTP, MTP+3000] and "
              "funding transactions; then up to 12 probes: a block on the tip holding one transaction with nLockTime in {0, h-1, h, h+1, 499999999, 500000000, "
              "MTP-1, MTP, MTP+1, blocktime-1..+1, max}, per-input nSequence in {FINAL, FINAL-1, disable flag, height-type k-1/k/k+1 around the coin's depth, "
              "time-type at the 512 s step around MTP(tip)-MTP(block before the coin), junk in undefined bits, random}, version 0/1/2/3/max, spending funded "
@@ -53,10 +53,10 @@ VERIF_TARGET(c05_timelocks, nullptr, 64, 900,
              "after an overtaking reorg with other timestamps. non-trivial = some probe within 1 unit of a lock boundary; distinct = lock kinds x verdicts")
 {
     ChainSimOpts o;
-    const int csv_h = s.pick<int>({1, 108, 1, 110, 113});
-    if (csv_h == 108) o.extra_args.push_back("-testactivationheight=csv@108");
-    if (csv_h == 110) o.extra_args.push_back("-testactivationheight=csv@110");
-    if (csv_h == 113) o.extra_args.push_back("-testactivationheight=csv@113");
+    const int csv_h = s.pick<int>({1, 118, 1, 124, 130}); // the probes happen at heights 111..140
+    if (csv_h == 118) o.extra_args.push_back("-testactivationheight=csv@118");
+    if (csv_h == 124) o.extra_args.push_back("-testactivationheight=csv@124");
+    if (csv_h == 130) o.extra_args.push_back("-testactivationheight=csv@130");
     ChainSim sim(o);
     TxGen tg(sim);
     ReplayCache rc(sim.ledger);
